@@ -11,8 +11,9 @@
       * an index is a stack of LAYERS, one per build that still has shards on disk: the documents of all shards written by
         that build (a document = path, blob, set of branches) and the FileTombstones those shards carry (the harness
         checks that all shards of one build carry the same tombstones);
-      * a requested delta build falls back to a full build when there is no index yet; other fallbacks (branch set /
-        option changes, shard-count threshold, ignore file) are not generated. *)
+      * [run_step] (fixed list of branches and options): a requested delta build falls back to a full build when there is
+        no index yet.  The general decision (branch list / index options changed, shard-count threshold) is modelled in
+        Model/DeltaDecide.v on top of this file. *)
 From ZV Require Import Lib.Base.
 
 Definition path := N.
@@ -97,12 +98,11 @@ Definition view (stack : list layer) (b : nat) (p : path) : list blob := flat_ma
 Definition head_view (s : snap) (b : nat) (p : path) : list blob :=
   match lookup (tree_of s b) p with Some bl => [bl] | None => [] end.
 
-(** ---- correspondence runner.
-    case = (number of branches, runs = (snapshot, requested kind), observed stacks after each run).
-    Observed layer = (documents as (path, blob, sorted branch numbers), sorted FileTombstones). *)
+(** ---- correspondence: comparing a stack of the model with an observed one (the runner over whole histories, which also
+    compares the delta / normal build decision, is in Model/DeltaDecide.v).
+    Observed layer = (documents as (path, blob, sorted branch positions), sorted FileTombstones). *)
 Definition odoc := (N * N * list nat)%type.
 Definition olayer := (list odoc * list N)%type.
-Definition c13case := (nat * list (snap * kind) * list (list olayer))%type.
 
 Definition odoc_eqb (a b : odoc) : bool :=
   match a, b with (p1, b1, m1), (p2, b2, m2) => N.eqb p1 p2 && N.eqb b1 b2 && list_eqb Nat.eqb m1 m2 end.
@@ -118,14 +118,6 @@ Fixpoint stack_matches (s : list layer) (o : list olayer) : bool :=
   | l :: s', x :: o' => layer_matches l x && stack_matches s' o'
   | _, _ => false
   end.
-Fixpoint runs_match (nb : nat) (st : istate) (runs : list (snap * kind)) (obs : list (list olayer)) : bool :=
-  match runs, obs with
-  | [], [] => true
-  | r :: runs', o :: obs' => let st' := run_step nb st r in stack_matches (st_stack st') o && runs_match nb st' runs' obs'
-  | _, _ => false
-  end.
-Definition c13_ok (c : c13case) : bool := let '(nb, runs, obs) := c in runs_match nb init_state runs obs.
-Definition c13_mismatches (cs : list c13case) : list N := bad_indexes c13_ok cs.
 
 (** NOT the code: prepareDeltaBuild without the "for b, currentTree := range branchToCurrentTree" re-adding of every
     branch's current version of a modified/deleted path (only the changed branch's new file is added).  Used only to
